@@ -189,7 +189,7 @@ def run(tier, seed):
         return set(rng.sample(range(total), min(k, total)))
 
     # (R1) results of single circuits: QNode call, or qp.execute of a batch of one (every fourth evaluation)
-    k_fast, jx = (1, slots(len(fam["tape"]), 9)) if quick else (14, slots(len(fam["tape"]), 200))
+    k_fast, jx = (1, slots(len(fam["tape"]), 9)) if quick else (3, slots(len(fam["tape"]), 150))
     for ci, item in enumerate(fam["tape"]):
         t = item["c"]["tapes"][0]
         cfgs = [BASE] + ([] if quick else [(d, "numpy", "none") for d in DEVICES[1:] if supported((d, "numpy", "none"), t)])
@@ -207,7 +207,7 @@ def run(tier, seed):
             item["jobs"] += [job("jac_batch", n, ts, cfg, ci, ps=[2] * len(ts)) for cfg in TAPE_LEVEL if cfg[0] != "reference.qubit"
                              and supported(cfg, worst)]
     # (R3) Jacobians: framework Jacobian of the QNode, and tape-level Jacobians (gradient transform / device derivatives)
-    k_fast, jx = (1, slots(len(fam["jac"]), 6)) if quick else (100, slots(len(fam["jac"]), 150))
+    k_fast, jx = (1, slots(len(fam["jac"]), 6)) if quick else (6, slots(len(fam["jac"]), 100))
     for ci, item in enumerate(fam["jac"]):
         t, args = item["c"]["tapes"][0], item["c"]["args"]
         cfgs = pick_cfgs(t, k_fast, ci in jx, jac_pool(t), DIFF_JAX) + [c for c in jac_pool(t) if c[2] == "adjoint"]
@@ -229,7 +229,7 @@ def run(tier, seed):
             sh[1] = sh[0]
         return {"shots": sh, "meas": ms, "b": 0 if diffable else rng.choice([0, 0, 1, 2, 4])}
 
-    n_rand = 200 if quick else 4000
+    n_rand = 200 if quick else 3000
     jax_every = 70 if quick else 12
     tjobs = []
     for i in range(n_rand):
@@ -542,7 +542,7 @@ def run(tier, seed):
            "execute_wall_s": exec_wall, "waited_for_jax_worker_s": jax_wait, "calls_and_cpu_s_by_interface": cpu_by_itf}
     return CheckResult(coverage=cov, violations=viol, assumptions=[
         "every enumerated request runs on default.qubit/numpy; the other (device, interface, diff method) combinations are a seeded "
-        "sample per request in the quick tier (one per request; thorough: all devices with numpy plus 14 sampled combinations); jax "
+        "sample per request in the quick tier (one per request; thorough: all devices with numpy plus 3 sampled combinations, 6 for Jacobians); jax "
         "evaluations are few (XLA warm-up) and run in a worker process",
         "configurations the library documents as unsupported are not attempted (backprop / adjoint with finite shots, adjoint off "
         "default.qubit or with non-expectation measurements, qp.state on default.mixed); any other exception is counted, not judged",
